@@ -1,0 +1,26 @@
+//! Probes read by the verification harness. Compiled only with the cargo feature `beff_verif`
+//! (off by default); nothing in beff reads them.
+use std::sync::atomic::{AtomicU64, Ordering};
+
+/// entries into the branching emptiness decisions of the semantic engine
+/// (`mapping::check_mapping_empty`, `bdd::list_inhabited`) since the last reset
+pub static EMPTINESS_STEPS: AtomicU64 = AtomicU64::new(0);
+/// the largest number of negated atoms one such decision was entered with since the last reset
+pub static MAX_NEGATED_ATOMS: AtomicU64 = AtomicU64::new(0);
+
+pub fn emptiness_step(negated_atoms: usize) {
+    EMPTINESS_STEPS.fetch_add(1, Ordering::Relaxed);
+    MAX_NEGATED_ATOMS.fetch_max(negated_atoms as u64, Ordering::Relaxed);
+}
+
+pub fn reset() {
+    EMPTINESS_STEPS.store(0, Ordering::Relaxed);
+    MAX_NEGATED_ATOMS.store(0, Ordering::Relaxed);
+}
+
+pub fn read() -> (u64, u64) {
+    (
+        EMPTINESS_STEPS.load(Ordering::Relaxed),
+        MAX_NEGATED_ATOMS.load(Ordering::Relaxed),
+    )
+}
